@@ -9,6 +9,14 @@
 //   components           : e = eff_i eff_j g_ij B_ij of the detector pair of the bin, 0 for virtual crystals
 //   chain                : product of the members;   trivial : 1
 // Clauses (1)-(7) of DESIGN.md "### C13".
+//
+// Object HISTORIES (key "history" of the case): the object of grouping 0 is not used freshly constructed but after a call history
+//   [other factors through the accessors / other allocation] -> set_up (same or another geometry) -> [use] -> [a member set up on
+//   its own for another geometry] -> FINAL factors through the same accessors -> set_up for the data geometry
+// possibly with two such rounds.  Every clause is then evaluated on that object against the reference of the FINAL settings, and
+// a freshly constructed twin (same settings, same symmetry switches) must give bit-identical undo/apply results, the same
+// is_trivial() and the same get_bin_efficiency(): the clauses "one fixed positive factor ... which equals the efficiency the
+// object reports" and "reports itself trivial changes nothing" are decided over call histories, not only over single set-ups.
 #include "explicit_p.h"
 #include "c20_fanref.h"
 #include "stir/recon_buildblock/BinNormalisation.h"
@@ -24,6 +32,7 @@
 #include "stir/RelatedViewgrams.h"
 #include "stir/ViewSegmentNumbers.h"
 #include "stir/ExamInfo.h"
+#include <functional>
 #include <map>
 #include <set>
 #include <unistd.h>
@@ -67,9 +76,6 @@ excluded(const std::string& sig)
     }
 }
 const char* const SIG_F1 = "C13:F1:components:bins_outside_symmetric_fan";
-const char* const SIG_F3 = "C13:F3:components:is_trivial_with_zero_efficiency_bins";
-const char* const SIG_F4 = "C13:F4:attenuation_member:tof_mashed_to_one_bin";
-const char* const SIG_F5 = "C13:F5:components:block_factors_same_block_pair";
 
 //! an inconsistency noticed by the harness itself: never a "rejected configuration"
 struct HarnessError : std::logic_error
@@ -103,7 +109,7 @@ struct Env
     o.num_tangential_LORs = lors;
     o.restrict_to_cylindrical_FOV = cyl;
     // the reference is the plain line integral along the LOR: attenuation does not depend on time of flight, so the rows are
-    // taken for the non-TOF geometry (matters only for "TOF" data mashed to ONE bin, which set_up accepts - finding F4)
+    // taken for the non-TOF geometry (TOF data, also when mashed to ONE TOF bin, are rejected by set_up; fixed defect F4)
     shared_ptr<const ProjDataInfo> ref_pdi = pdi_data->is_tof_data() ? shared_ptr<const ProjDataInfo>(pdi_data->create_non_tof_clone()) : pdi_data;
     return matrices.emplace(key, vp::ExplicitP::build(ref_pdi, image, o)).first->second;
   }
@@ -129,6 +135,10 @@ struct Built
   double tol_ref = TOL_EXACT_REF; // tolerance for e vs reference
   std::vector<shared_ptr<ForwardProjectorByBin>> projectors; // of the attenuation members (they dictate the grouping)
   std::string label;
+  // histories: writers of the component factors (phase >= 0: the factors of that earlier round, phase < 0: the final ones) and
+  // the leaf objects of the tree
+  std::vector<std::function<void(int phase, const json& hist)>> refill;
+  std::vector<shared_ptr<BinNormalisation>> leaves;
 };
 
 //! radius (mm) inside which attenuation values are generated.  The projector traces rays from/to the FOV cylinder (or box) whose
@@ -309,53 +319,86 @@ build(const json& s, Env& env, const Flags& fl)
       if (unit_tr % 2 != 0 || double(B.nphys) * B.nphys * B.nrphys * B.nrphys > 3e6)
         do_geo = false;
       // allocate(): BlockData3D(nb_ax, nb_tr, nb_ax-1, nb_tr-1): FanProjData constructor asserts an even "ring" size; it has no
-      // cell for a block with itself, which apply_block_norm would index for two detectors of one block (see C20 notes, O2)
-      if (do_block && B.nb_tr >= 2 && B.nb_tr % 2 == 0 && !no_exclude && F.new_half_fan > B.nphys / 2 - B.p_tr)
-        excluded(SIG_F5); // switched off only because of the finding (an odd number of blocks is a documented precondition)
-      if (!(B.nb_tr >= 2 && B.nb_tr % 2 == 0 && (no_exclude || F.new_half_fan <= B.nphys / 2 - B.p_tr)))
+      // cell for two blocks at the same transaxial position: such detector pairs have no block factor (factor 1; fixed defect F5)
+      if (!(B.nb_tr >= 2 && B.nb_tr % 2 == 0))
         do_block = false;
+      if (do_block && F.new_half_fan > B.nphys / 2 - B.p_tr)
+        stats().cls("components: fan contains two detectors of one block (with block factors)");
       if (!do_eff && !do_geo && !do_block)
         do_eff = true;
       shared_ptr<BinNormalisationPETFromComponents> n(new BinNormalisationPETFromComponents);
-      n->allocate(env.pdi_data, do_eff, do_geo, do_block, per_block);
-      auto val = [&](uint64_t salt, uint64_t key, double lo, double hi) {
-        if (near_one == 1)
+      const shared_ptr<ProjDataInfo> alloc_pdi = env.pdi_data;
+      const bool allow_geo = unit_tr % 2 == 0 && double(B.nphys) * B.nphys * B.nrphys * B.nrphys <= 3e6, allow_block = B.nb_tr >= 2 && B.nb_tr % 2 == 0;
+      shared_ptr<c20::GeoClasses> cl;
+      const bool pre_geo = env.c.contains("history") && env.c["history"]["realloc"].get<bool>() && env.c["history"]["pre_flags"][1].get<int>() != 0;
+      if (allow_geo && (do_geo || pre_geo))
+        cl.reset(new c20::GeoClasses(B.nphys, B.nrphys, unit_tr, unit_ax));
+      // the factor of a key: a pure function of (seed, kind of near-one class)
+      auto val_of = [](uint64_t sd, int no, uint64_t salt, uint64_t key, double lo, double hi) {
+        if (no == 1)
           return 1.F;
-        if (near_one == 2)
-          return float(1. + c20::hreal(seed ^ salt, key, -9e-5, 9e-5));
-        return float(c20::hreal(seed ^ salt, key, lo, hi));
+        if (no == 2)
+          return float(1. + c20::hreal(sd ^ salt, key, -9e-5, 9e-5));
+        return float(c20::hreal(sd ^ salt, key, lo, hi));
       };
-      if (do_eff)
-        {
-          DetectorEfficiencies& eff = n->crystal_efficiencies();
-          if (eff.get_length() != B.nrphys || eff[0].get_length() != B.nphys)
-            throw HarnessError("harness: unexpected size of crystal_efficiencies()");
-          for (int r = 0; r < B.nrphys; ++r)
-            for (int a = 0; a < B.nphys; ++a)
-              eff[r][a] = val(0xeffULL, uint64_t(r) * 4096 + uint64_t(a), 0.2, 5.);
-        }
-      std::unique_ptr<c20::GeoClasses> cl;
-      if (do_geo)
-        {
-          GeoData3D& gd = n->geometric_factors();
-          if (gd.get_num_axial_crystals_per_block() != unit_ax || gd.get_half_num_transaxial_crystals_per_block() * 2 != unit_tr)
-            throw HarnessError("harness: unexpected symmetry unit of geometric_factors()");
-          cl.reset(new c20::GeoClasses(B.nphys, B.nrphys, unit_tr, unit_ax));
-          for (int ra = 0; ra < unit_ax; ++ra)
-            for (int a = 0; a < unit_tr / 2; ++a)
-              for (int rb = ra; rb < B.nrphys; ++rb)
-                for (int bb = 0; bb < B.nphys; ++bb)
-                  gd(ra, a, rb, bb) = val(0x6e0ULL, uint64_t(cl->cls(ra, a, rb, bb)), 0.5, 2.);
-        }
-      if (do_block)
-        {
-          BlockData3D& bd = n->block_factors();
-          for (int RA = bd.get_min_ra(); RA <= bd.get_max_ra(); ++RA)
-            for (int A = bd.get_min_a(); A <= bd.get_max_a(); ++A)
-              for (int RB = std::max(RA, bd.get_min_rb(RA)); RB <= bd.get_max_rb(RA); ++RB)
-                for (int Bq = bd.get_min_b(A); Bq <= bd.get_max_b(A); ++Bq)
-                  bd(RA, A, RB, Bq) = val(0xb10cULL, c20::pair_key(RA, A, RB, Bq % B.nb_tr, B.nb_tr), 0.5, 2.);
-        }
+      // writes one set of factors through the accessors crystal_efficiencies() / geometric_factors() / block_factors()
+      auto fill = [n, B, cl, unit_tr, unit_ax, val_of](uint64_t sd, int no, bool fe, bool fg, bool fb) {
+        if (fe)
+          {
+            DetectorEfficiencies& eff = n->crystal_efficiencies();
+            if (eff.get_length() != B.nrphys || eff[0].get_length() != B.nphys)
+              throw HarnessError("harness: unexpected size of crystal_efficiencies()");
+            for (int r = 0; r < B.nrphys; ++r)
+              for (int a = 0; a < B.nphys; ++a)
+                eff[r][a] = val_of(sd, no, 0xeffULL, uint64_t(r) * 4096 + uint64_t(a), 0.2, 5.);
+          }
+        if (fg)
+          {
+            GeoData3D& gd = n->geometric_factors();
+            if (gd.get_num_axial_crystals_per_block() != unit_ax || gd.get_half_num_transaxial_crystals_per_block() * 2 != unit_tr)
+              throw HarnessError("harness: unexpected symmetry unit of geometric_factors()");
+            for (int ra = 0; ra < unit_ax; ++ra)
+              for (int a = 0; a < unit_tr / 2; ++a)
+                for (int rb = ra; rb < B.nrphys; ++rb)
+                  for (int bb = 0; bb < B.nphys; ++bb)
+                    gd(ra, a, rb, bb) = val_of(sd, no, 0x6e0ULL, uint64_t(cl->cls(ra, a, rb, bb)), 0.5, 2.);
+          }
+        if (fb)
+          {
+            BlockData3D& bd = n->block_factors();
+            for (int RA = bd.get_min_ra(); RA <= bd.get_max_ra(); ++RA)
+              for (int A = bd.get_min_a(); A <= bd.get_max_a(); ++A)
+                for (int RB = std::max(RA, bd.get_min_rb(RA)); RB <= bd.get_max_rb(RA); ++RB)
+                  for (int Bq = bd.get_min_b(A); Bq <= bd.get_max_b(A); ++Bq)
+                    bd(RA, A, RB, Bq) = val_of(sd, no, 0xb10cULL, c20::pair_key(RA, A, RB, Bq % B.nb_tr, B.nb_tr), 0.5, 2.);
+          }
+      };
+      n->allocate(alloc_pdi, do_eff, do_geo, do_block, per_block);
+      fill(seed, near_one, do_eff, do_geo, do_block);
+      auto val = [&](uint64_t salt, uint64_t key, double lo, double hi) { return val_of(seed, near_one, salt, key, lo, hi); };
+      // histories: phase >= 0 writes the factors of an earlier round (another seed, the near-one class and - when the history
+      // re-allocates - the component switches given there), phase < 0 the final ones
+      b.refill.push_back([=](int phase, const json& h) {
+        const bool realloc = h["realloc"].get<bool>();
+        if (phase < 0)
+          {
+            if (realloc)
+              n->allocate(alloc_pdi, do_eff, do_geo, do_block, per_block);
+            fill(seed, near_one, do_eff, do_geo, do_block);
+            return;
+          }
+        bool pe = do_eff, pg = do_geo, pb = do_block;
+        if (realloc)
+          {
+            pe = h["pre_flags"][0].get<int>() != 0;
+            pg = h["pre_flags"][1].get<int>() != 0 && allow_geo;
+            pb = h["pre_flags"][2].get<int>() != 0 && allow_block;
+            if (!pe && !pg && !pb)
+              pe = true;
+            n->allocate(alloc_pdi, pe, pg, pb, per_block);
+          }
+        fill(seed ^ (0x5bd1e995ULL * uint64_t(phase + 1)), h["pre_near_one"].get<int>(), pe, pg, pb);
+      });
       b.norm = n;
       for (long i = 0; i < N; ++i)
         {
@@ -376,7 +419,7 @@ build(const json& s, Env& env, const Flags& fl)
             e *= double(val(0xeffULL, uint64_t(nra) * 4096 + uint64_t(na), 0.2, 5.)) * double(val(0xeffULL, uint64_t(nrb) * 4096 + uint64_t(nb_), 0.2, 5.));
           if (do_geo)
             e *= double(val(0x6e0ULL, uint64_t(cl->cls(nra, na, nrb, nb_)), 0.5, 2.));
-          if (do_block)
+          if (do_block && na / B.p_tr != nb_ / B.p_tr)
             e *= double(val(0xb10cULL, c20::pair_key(nra / B.p_ax, na / B.p_tr, nrb / B.p_ax, nb_ / B.p_tr, B.nb_tr), 0.5, 2.));
           if (std::abs(bin.tangential_pos_num()) > F.half_fan && !no_exclude)
             {
@@ -426,6 +469,8 @@ build(const json& s, Env& env, const Flags& fl)
           b.geb = b.geb && p.geb;
           b.has_atten = b.has_atten || p.has_atten;
           b.projectors.insert(b.projectors.end(), p.projectors.begin(), p.projectors.end());
+          b.refill.insert(b.refill.end(), p.refill.begin(), p.refill.end());
+          b.leaves.insert(b.leaves.end(), p.leaves.begin(), p.leaves.end());
           b.exact_unit = b.exact_unit && p.exact_unit;
           b.tol_ref += p.tol_ref;
           b.label += p.label + " ";
@@ -434,6 +479,8 @@ build(const json& s, Env& env, const Flags& fl)
     }
   else
     throw HarnessError("harness: unknown normalisation kind");
+  if (k != "chain")
+    b.leaves.push_back(b.norm);
   return b;
 }
 
@@ -533,13 +580,127 @@ flags_of(const json& g)
   return f;
 }
 
-//! construction + set_up of one object tree for one grouping ("reason" set when STIR rejects the configuration)
+//! the other data geometries (same scanner) an object may be set up for in a history, before the set_up for the data geometry.
+//! Every one is a valid ProjDataInfo; a class that cannot handle it says so with error() / Succeeded::no (accepted).
+std::vector<std::pair<std::string, shared_ptr<ProjDataInfo>>>
+alternative_geometries(const Env& env)
+{
+  std::vector<std::pair<std::string, shared_ptr<ProjDataInfo>>> v;
+  const ProjDataInfo& p = *env.pdi_data;
+  if (p.get_max_segment_num() > 0)
+    {
+      shared_ptr<ProjDataInfo> q = p.create_shared_clone();
+      q->reduce_segment_range(0, 0);
+      v.emplace_back("fewer segments", q);
+    }
+  if (p.get_num_tangential_poss() >= 3)
+    {
+      shared_ptr<ProjDataInfo> q = p.create_shared_clone();
+      q->set_num_tangential_poss(p.get_num_tangential_poss() - 2);
+      v.emplace_back("fewer tangential positions", q);
+    }
+  if (p.is_tof_data())
+    v.emplace_back("non-TOF", shared_ptr<ProjDataInfo>(p.create_non_tof_clone()));
+  try
+    {
+      // another view mashing (all other parameters as the full geometry of the case)
+      json j = env.c["pdi"];
+      const int views = j["views"].get<int>(), full = env.sc->get_num_detectors_per_ring() / 2;
+      j["views"] = views < full ? full : (views % 2 == 0 && views >= 4 ? views / 2 : views);
+      if (j["views"].get<int>() != views && env.sc->get_scanner_geometry() == "Cylindrical")
+        v.emplace_back("other view mashing", vg::make_pdi(env.sc, j));
+    }
+  catch (const std::exception&)
+    {}
+  return v;
+}
+
+//! construction + set_up of one object tree for one grouping ("reason" set when STIR rejects the configuration).
+//! With hist: the object goes through the call history described at the top of this file before the final set_up.
 bool
-make_group(Group& G, const json& spec, Env& env, std::string& reason)
+make_group(Group& G, const json& spec, Env& env, std::string& reason, const json* hist = nullptr)
 {
   try
     {
       G.b = build(spec, env, G.fl);
+      if (hist)
+        {
+          const json& h = *hist;
+          const auto alts = alternative_geometries(env);
+          auto geometry = [&](int k) -> std::pair<std::string, shared_ptr<ProjDataInfo>> {
+            if (k <= 0 || alts.empty())
+              return { "same geometry", env.pdi_data };
+            return alts[std::size_t(k - 1) % alts.size()];
+          };
+          const bool pre_factors = h["pre_factors"].get<bool>() && !G.b.refill.empty();
+          const int rounds = h["rounds"].get<int>();
+          for (int round = 0; round < rounds; ++round)
+            {
+              if (pre_factors)
+                {
+                  for (auto& f : G.b.refill)
+                    f(round, h);
+                  stats().cls(h["realloc"].get<bool>() ? "history: components allocated and filled differently before" : "history: other component factors before");
+                }
+              const auto g = geometry(round == 0 ? h["alt"].get<int>() : h["alt2"].get<int>());
+              // an earlier set_up may refuse the geometry (error() or Succeeded::no): the final set_up has to cope with that
+              bool ok = false;
+              vg::quiet();
+              try
+                {
+                  ok = G.b.norm->set_up(env.exam, g.second) == Succeeded::yes;
+                }
+              catch (const stir_verif::AssertionFailure&)
+                {
+                  throw;
+                }
+              catch (const std::exception&)
+                {}
+              stats().cls(cat("history: earlier set_up, ", g.first, ok ? " (accepted)" : " (refused)"));
+              if (ok && h["use_between"].get<bool>() && g.second->size_all() <= 2 * env.pdi_data->size_all() + 1000)
+                {
+                  // use the object for that geometry (fills whatever the members cache)
+                  try
+                    {
+                      SymPtr sym;
+                      if (!G.b.projectors.empty())
+                        sym.reset(G.b.projectors[0]->get_symmetries_used()->clone());
+                      ProjDataInMemory pd(env.exam, g.second);
+                      pd.fill(1.F);
+                      G.b.norm->undo(pd, sym);
+                      (void)G.b.norm->is_trivial();
+                      stats().cls("history: object used between the set_ups");
+                    }
+                  catch (const stir_verif::AssertionFailure&)
+                    {
+                      throw;
+                    }
+                  catch (const std::exception&)
+                    {}
+                }
+            }
+          // one member set up on its own for another geometry (the owner of the tree has to set it up again)
+          const int ma = h["member_alt"].get<int>();
+          if (ma >= 0 && G.b.leaves.size() > 1)
+            {
+              const auto g = geometry(h["member_alt_geom"].get<int>());
+              try
+                {
+                  (void)G.b.leaves[std::size_t(ma) % G.b.leaves.size()]->set_up(env.exam, g.second);
+                }
+              catch (const stir_verif::AssertionFailure&)
+                {
+                  throw;
+                }
+              catch (const std::exception&)
+                {}
+              stats().cls("history: a chain member set up on its own for " + g.first);
+            }
+          // the final settings through the same accessors
+          if (pre_factors)
+            for (auto& f : G.b.refill)
+              f(-1, h);
+        }
       if (G.b.norm->set_up(env.exam, env.pdi_data) != Succeeded::yes)
         {
           reason = "set_up returned Succeeded::no";
@@ -628,12 +789,6 @@ check(const json& c)
   const json& spec = c["norm"];
   const std::string top = spec["k"];
   const bool tof = env.pdi_data->is_tof_data();
-  if (!no_exclude && tof && env.pdi_data->get_num_tof_poss() == 1 && contains_kind(spec, "atten"))
-    {
-      // finding F4 (work/notes/C13_findings.md): excluded by construction in the generator; a hand-made case is not decided
-      excluded(SIG_F4);
-      return Result::reject("excluded class: known finding F4");
-    }
 
   // ---- object trees, one per grouping ---------------------------------------------------------------------------------
   std::vector<Group> groups;
@@ -653,6 +808,20 @@ check(const json& c)
     }
   if (groups.empty())
     return Result::reject("no grouping");
+  // ---- history: grouping 0 is evaluated on an object with a call history; the fresh object becomes its twin --------------------
+  std::unique_ptr<Group> twin;
+  if (c.contains("history"))
+    {
+      Group H;
+      H.fl = groups[0].fl;
+      std::string reason;
+      const bool ok = make_group(H, spec, env, reason, &c["history"]);
+      VF_CHECK(ok, "history ", c["history"].dump(), ": the final set_up for the data geometry fails (", reason.substr(0, 100),
+               ") although a freshly constructed object with the same settings accepts it");
+      twin.reset(new Group(std::move(groups[0])));
+      groups[0] = std::move(H);
+      stats().cls("history: object with a call history compared with a fresh twin");
+    }
   Group& G0 = groups[0];
   const Built& R = G0.b;
   stats().cls("class " + top);
@@ -833,13 +1002,6 @@ check(const json& c)
         for (long i = 0; i < N; ++i)
           {
             const std::size_t u = std::size_t(i);
-            if (R.skip[u] && !no_exclude)
-              {
-                // finding F3: components report trivial although virtual-crystal (and outside-fan) bins have efficiency 0
-                stats().count("is_trivial but zero-efficiency bins (finding F3, excluded)");
-                excluded(SIG_F3);
-                continue;
-              }
             if (R.exact_unit)
               VF_CHECK(U1[u] == x1[u] && A1[u] == x1[u], R.label, ": reports is_trivial() but changes ", bin_str(env.ix.bins[u]), ": x=", x1[u], " undo=", U1[u],
                        " apply=", A1[u]);
@@ -850,6 +1012,28 @@ check(const json& c)
           }
       }
   }
+
+  // ---- histories: the object behaves exactly like a freshly constructed one with the final settings ------------------------------------------
+  if (twin)
+    {
+      const BinNormalisation& Nt = *twin->b.norm;
+      // same settings, same symmetry switches, same operations per bin: identical results
+      Result r = compare(U1, pass_viewgrams(Nt, twin->sym, x1, true, env), 0., "undo of the object with a call history and of a fresh object");
+      if (r.failed())
+        return r;
+      r = compare(A1, pass_viewgrams(Nt, twin->sym, x1, false, env), 0., "apply of the object with a call history and of a fresh object");
+      if (r.failed())
+        return r;
+      VF_CHECK(N0.is_trivial() == Nt.is_trivial(), R.label, ": is_trivial() = ", N0.is_trivial(), " after the call history but ", Nt.is_trivial(),
+               " for a fresh object with the same settings");
+      if (R.geb)
+        for (long i = 0; i < N; ++i)
+          {
+            const float gh = N0.get_bin_efficiency(env.ix.bins[std::size_t(i)]), gt = Nt.get_bin_efficiency(env.ix.bins[std::size_t(i)]);
+            VF_CHECK(gh == gt || (std::isnan(gh) && std::isnan(gt)), R.label, ": get_bin_efficiency = ", gh, " after the call history but ", gt,
+                     " for a fresh object at ", bin_str(env.ix.bins[std::size_t(i)]));
+          }
+    }
 
   // ---- (7) attenuation: anchor and additivity -------------------------------------------------------------------------------------------
   if (top == "atten")
@@ -1076,14 +1260,6 @@ gen(Src& s, int size)
                 break;
             }
         }
-      if (att && !no_exclude && p["tof_mash"].get<int>() > 0 && p["tof_mash"].get<int>() == sc->get_max_num_timing_poss())
-        // finding F4 (excluded by construction): TOF data mashed to a single TOF bin pass the TOF test of
-        // BinNormalisationFromAttenuationImage::set_up, and the projector then applies the TOF kernel to the attenuation integral
-        {
-          p["tof_mash"] = 0;
-          stats().count(std::string("excluded:") + SIG_F4 + " (in the generator)");
-          stats().excluded_known++;
-        }
       c["pdi"] = p;
       long bins = 0;
       try
@@ -1146,20 +1322,23 @@ gen(Src& s, int size)
   c["groupings"] = gs;
   c["seed_x"] = s.seed64();
   c["file_backed"] = s.chance(1, 6);
+  // call history of the object of grouping 0 (see the top of this file); the trivial class has no state
+  if (spec["k"] != "trivial" && s.chance(comp ? 3 : 2, 5))
+    {
+      json h;
+      h["rounds"] = s.chance(3, 4) ? 1 : 2;
+      h["alt"] = s.chance(1, 2) ? 0 : int(s.range(1, 4));  // 0: same geometry, k: k-th applicable other geometry
+      h["alt2"] = s.chance(1, 2) ? 0 : int(s.range(1, 4)); // geometry of the second round
+      h["pre_factors"] = s.chance(4, 5);                   // components: other factors before the final ones
+      h["pre_near_one"] = int(s.pick(std::vector<int>{ 0, 0, 0, 1, 2 }));
+      h["realloc"] = !s.chance(3, 4);
+      h["pre_flags"] = { s.coin() ? 1 : 0, s.coin() ? 1 : 0, s.coin() ? 1 : 0 };
+      h["use_between"] = s.coin();
+      h["member_alt"] = (spec["k"] == "chain" && s.chance(1, 3)) ? int(s.range(0, 2)) : -1;
+      h["member_alt_geom"] = int(s.range(0, 4));
+      c["history"] = h;
+    }
   return c;
-}
-
-//! whole-case exclusion of finding F4 (the other findings exclude bins or a member option inside a case, see the notes)
-std::string
-known_signature(const json& c)
-{
-  if (no_exclude)
-    return "";
-  const json& sc = c["scanner"];
-  if (contains_kind(c["norm"], "atten") && sc.contains("tof_poss") && sc["tof_poss"].get<int>() > 0
-      && c["pdi"]["tof_mash"].get<int>() == sc["tof_poss"].get<int>())
-    return SIG_F4;
-  return "";
 }
 
 bool
@@ -1178,7 +1357,6 @@ the_property()
   p.gen = gen;
   p.check = check;
   p.nontrivial = nontrivial;
-  p.known_signature = known_signature;
   p.rule = "normalisation class other than the trivial one and >= 2 symmetry groupings compared";
   return p;
 }
